@@ -127,10 +127,12 @@ FOREIGN = {
     "pair_hist": lambda: (_h1(), {"histogram": {"dim": 1}}),
     "hist_float_bins": lambda: (histogram([0, 1, 2], [1.5, 2.5]), {"a": 1}),
     "hist_no_graph": lambda: (_h1(), {"histogram": {"to_graph": False}}),
-    "hist_no_csv": lambda: (_h1(), {"output": {"to_csv": False}}),
+    # unselected values that carry settings meant for ToCSV (they must not reach a later histogram)
+    "hist_no_csv": lambda: (_h1(), {"output": {"to_csv": False, "duplicate_last_bin": False}}),
     "hist2_no_csv": lambda: (histogram([[0, 1, 2], [0, 1]], [[1], [2]]),
                              {"output": {"to_csv": 0, "write": False}}),
-    "graph_no_csv": lambda: (graph([[0, 1], [2, 3]]), {"output": {"to_csv": False, "write": False}}),
+    "graph_no_csv": lambda: (graph([[0, 1], [2, 3]]), {"output": {"to_csv": False, "write": False,
+                                                                   "duplicate_last_bin": True}}),
     "hist3d": lambda: (_h3(), {"b": 2}),
     "graph": lambda: graph([[0, 1], [2, 3]]),
     "pair_graph": lambda: (graph([[0, 1], [2, 3]]), {"g": 1}),
